@@ -10,3 +10,12 @@ def _into_iter_identity(eng, m, args, fr, dty):
     if isinstance(v, Vec):
         return NotImplemented
     return v
+
+
+@model(r'^<(.+) as Clone>::clone$')
+def _generic_clone(eng, m, args, fr, dty):
+    # only for types without a MIR body (std containers / Option / tuples); user impls run from MIR
+    if eng.resolve(m.group(0)) is not None:
+        return NotImplemented
+    from .engine import deep_copy
+    return deep_copy(eng.deref(args[0], fr))
